@@ -1,7 +1,9 @@
 import Pyc.Driver.Value
 import Pyc.Driver.Canonical
+import Pyc.Driver.Output
 import Pyc.Driver.Addr
 import Pyc.Driver.Backends
+import Pyc.Driver.Bip32
 open Lean Pyc.Driver
 
 /-- dispatch on the prefix of `op` -/
@@ -9,7 +11,9 @@ def dispatch (op : String) (j : Json) : R Json :=
   if op.startsWith "value." || op.startsWith "ma." || op.startsWith "asset." then handleValue op j
   else if op.startsWith "addr." || op.startsWith "ptr." || op.startsWith "bech32." then handleAddr op j
   else if op.startsWith "enc." then handleEnc op j
+  else if op.startsWith "out." || op.startsWith "fee." then handleOutput op j
   else if op.startsWith "backend." then handleBackend op j
+  else if op.startsWith "bip32." then handleBip32 op j
   else throw s!"unknown op {op}"
 
 def handleLine (line : String) : String :=
